@@ -11,7 +11,7 @@ Section WBA.
 Variable bname : bytes.
 Variable store : ident -> lookup.
 Variable async_store : bool.
-Notation Good := (Good store async_store).
+Notation Good := (Good (srow store) async_store).
 Notation pp := (pp store async_store).
 Notation ppq := (ppq store async_store).
 Notation step := (step bname store async_store).
@@ -98,7 +98,7 @@ End WBA.
 Section Async.
 Variable bname : bytes.
 Variable store : ident -> lookup.
-Notation Good := (Good store true).
+Notation Good := (Good (srow store) true).
 Notation step := (step bname store true).
 Notation run := (run bname store true).
 
